@@ -138,8 +138,16 @@ func execC12(spec *RunSpec) *Result {
 		c := cloneSpec(spec)
 		c.Ops = []OpSpec{op}
 		c.Grid = &GridSpec{Offsets: []int{op.Writer.FailAt}, Forms: []int{op.Writer.Form}}
-		if op.Ctx.CancelAtPoll > 0 {
-			c.Grid.Polls = []int{op.Ctx.CancelAtPoll}
+		switch {
+		case op.Ctx.Pre:
+			c.Grid = &GridSpec{Polls: []int{0}} // poll 0 = cancelled before the call
+		case op.Ctx.CancelAtPoll > 0:
+			c.Grid = &GridSpec{Polls: []int{op.Ctx.CancelAtPoll}}
+			if op.Writer.FailAt >= 0 {
+				c.Grid.Offsets, c.Grid.Forms = []int{op.Writer.FailAt}, []int{op.Writer.Form}
+			}
+		case op.Reader.FailAfter >= 0:
+			c.Grid = &GridSpec{ReaderAt: []int{op.Reader.FailAfter}}
 		}
 		return c
 	}
@@ -207,6 +215,9 @@ func execC12(spec *RunSpec) *Result {
 		forms = spec.Grid.Forms
 	}
 	onlyPolls := spec.Grid != nil && len(spec.Grid.Polls) > 0
+	if spec.Grid != nil && len(spec.Grid.ReaderAt) > 0 {
+		offsets = nil
+	}
 	if !onlyPolls {
 		for _, k := range offsets {
 			if k < 0 {
@@ -232,7 +243,7 @@ func execC12(spec *RunSpec) *Result {
 	var polls []int
 	if onlyPolls {
 		polls = spec.Grid.Polls
-	} else if spec.Grid == nil || len(spec.Grid.Offsets) == 0 {
+	} else if spec.Grid == nil || (len(spec.Grid.Offsets) == 0 && len(spec.Grid.ReaderAt) == 0) {
 		polls = append(polls, 0)
 		for j := 1; j <= ref.Polls+1; j++ {
 			polls = append(polls, j)
@@ -255,9 +266,12 @@ func execC12(spec *RunSpec) *Result {
 			nontrivial(fmt.Sprintf("c/%s/%s/poll%d", base.Entry, layout, j))
 		}
 		check(op, o, fmt.Sprintf("cancel at poll %d of %d", j, ref.Polls))
-		// cancellation combined with a writer fault on the first byte
-		if j > 0 && n > 0 && !onlyPolls {
+		// cancellation combined with a writer fault on the first byte (or, in a replay, the recorded writer fault)
+		if j > 0 && n > 0 && (!onlyPolls || len(spec.Grid.Offsets) > 0) {
 			op.Writer = WriterSpec{FailAt: 0, Form: j % 3}
+			if onlyPolls && len(spec.Grid.Offsets) > 0 {
+				op.Writer = WriterSpec{FailAt: spec.Grid.Offsets[0], Form: spec.Grid.Forms[0]}
+			}
 			o, rp, _ := c12RunOne(spec, op)
 			res.addStat("cases", 1)
 			res.addStat("steps", rp.Steps)
@@ -265,8 +279,13 @@ func execC12(spec *RunSpec) *Result {
 		}
 	}
 	// failing source reader (RenderReader only): error => nothing written
-	if base.Entry == "RenderReader" && !onlyPolls && (spec.Grid == nil || len(spec.Grid.Offsets) == 0) {
-		for _, k := range []int{0, 1, len(base.Source) / 2, len(base.Source) - 1} {
+	readerAt := []int{0, 1, len(base.Source) / 2, len(base.Source) - 1}
+	onlyReader := spec.Grid != nil && len(spec.Grid.ReaderAt) > 0
+	if onlyReader {
+		readerAt = spec.Grid.ReaderAt
+	}
+	if base.Entry == "RenderReader" && (onlyReader || (!onlyPolls && (spec.Grid == nil || len(spec.Grid.Offsets) == 0))) {
+		for _, k := range readerAt {
 			if k < 0 {
 				continue
 			}
